@@ -217,23 +217,49 @@ theorem includes_cover (objs : List Obj) :
 
 /-- **Every operator the type checker admits is spelled as something a C++17 compiler accepts on those operands**:
     arithmetic (`%` on doubles is `std::fmod`, recorded as a use of `<cmath>`), comparison (no ordering of pointers),
-    bitwise operators with enumeration operands (result cast back through `int`), for enumerations with and without
-    `Q_DECLARE_OPERATORS_FOR_FLAGS`. -/
+    bitwise operators with (unscoped) enumeration / QFlags operands (result cast back through `int`), for enumerations
+    with and without `Q_DECLARE_OPERATORS_FOR_FLAGS`.  For operands of SCOPED enumeration type the clause is false
+    today (finding F70, `bit_scoped_refuted`). -/
 theorem ops_subset_cxx :
     (∀ (op : ArithOp) (t : PTy), implAcceptsArith op t = true →
         cxxAcceptsArith (spellArith op t) op t = true ∧
         (spellArith op t = .fmod → Builtin.fmod ∈ arithUses (spellArith op t))) ∧
     (∀ (op : CmpOp) (o : CmpOperands), implAcceptsCmp op o = true → cxxAcceptsCmp op o = true) ∧
     (∀ (flagOps : Bool) (op : BitOp) (l r : ETy), isEnumOperand l = true → isEnumOperand r = true →
-        cxxAcceptsBit flagOps op l r = true) ∧
-    (∀ (a : ETy), isEnumOperand a = true → cxxAcceptsNot a = true) := by
+        l ≠ .scopedEnum → r ≠ .scopedEnum → cxxAcceptsBit flagOps op l r = true) ∧
+    (∀ (a : ETy), isEnumOperand a = true → a ≠ .scopedEnum → cxxAcceptsNot a = true) := by
   refine ⟨?_, ?_, ?_, ?_⟩
   · intro op t h
     cases op <;> cases t <;> simp_all [implAcceptsArith, cxxAcceptsArith, cxxAcceptsInfix, spellArith, arithUses]
   · intro op o h
     cases o <;> simp_all [implAcceptsCmp, cxxAcceptsCmp]
-  · intro _ _ _ _ _ _; rfl
-  · intro _ _; rfl
+  · intro f op l r hl hr hl' hr'
+    cases l <;> cases r <;> simp_all [isEnumOperand, cxxAcceptsBit, bitOperandOk, castable]
+  · intro a ha ha'
+    cases a <;> simp_all [isEnumOperand, cxxAcceptsNot, bitOperandOk, castable]
+
+/-- full statement of the bitwise clause: every admitted enumeration operand, scoped ones included -/
+def bit_subset_cxx_full_statement : Prop :=
+  (∀ (flagOps : Bool) (op : BitOp) (l r : ETy), isEnumOperand l = true → isEnumOperand r = true →
+      cxxAcceptsBit flagOps op l r = true) ∧
+  (∀ (a : ETy), isEnumOperand a = true → cxxAcceptsNot a = true)
+
+/-- **refuted** (finding F70): `v.scoped & v2.scoped2` is admitted and printed as
+    `static_cast<WBase::Scoped>(static_cast<int>(a0 & a1))`, but `enum class` values have no `operator&`; same for `~` -/
+theorem bit_scoped_refuted : ¬ bit_subset_cxx_full_statement := by
+  intro h
+  exact absurd (h.2 .scopedEnum (by decide)) (by decide)
+
+/-- with the candidate repair (scoped operands printed as `static_cast<int>(operand)`) the full clause holds -/
+theorem bit_subset_cxx_after_F70 :
+    (∀ (flagOps : Bool) (op : BitOp) (l r : ETy), isEnumOperand l = true → isEnumOperand r = true →
+        cxxAcceptsBitF70 flagOps op l r = true) ∧
+    (∀ (a : ETy), isEnumOperand a = true → cxxAcceptsNotF70 a = true) := by
+  constructor
+  · intro f op l r _ _
+    cases l <;> cases r <;> simp [cxxAcceptsBitF70, castScopedOperand, bitOperandOk, castable]
+  · intro a _
+    cases a <;> simp [cxxAcceptsNotF70, castScopedOperand, bitOperandOk, castable]
 
 /-- the code before 0f767b2: `double % double` was admitted and printed as `%` (finding F3a, fixed) -/
 theorem ops_subset_cxx_old_refuted :
@@ -256,6 +282,29 @@ theorem bit_subset_cxx_old_refuted :
   refine ⟨?_, by decide, by decide⟩
   intro h
   exact absurd (h false .and .enum .enum (by decide) (by decide)) (by decide)
+
+/-! ### enumerator operands -/
+
+/-- C++ [dcl.enum]: the enumerators of an unscoped enumeration are declared in the scope that contains the
+    enum-specifier (and may also be named through the enumeration); those of a scoped enumeration (`enum class`) can
+    ONLY be named through the enumeration.  `parent` = the qualified name of that containing class/namespace. -/
+def cxxNamesEnumerator (u : EnumUse) (spelling : Str) : Bool :=
+  spelling == u.parent ++ scopeSep ++ u.enumName ++ scopeSep ++ u.variant ||
+  (!u.isScoped && spelling == u.parent ++ scopeSep ++ u.variant)
+
+/-- **Every enumerator operand is spelled by a qualified name that denotes it**, scoped or not. -/
+theorem enumerator_spelling_resolves (u : EnumUse) : cxxNamesEnumerator u (qualifyCxxVariantName u) = true := by
+  unfold cxxNamesEnumerator qualifyCxxVariantName
+  cases h : u.isScoped <;> simp
+
+/-- dropping the parent scope of a scoped enumerator (`ExclusionPolicy::Exclusive` for
+    `QActionGroup::ExclusionPolicy::Exclusive`) does not name it -/
+example : cxxNamesEnumerator ⟨"QActionGroup".toList, "ExclusionPolicy".toList, true, "Exclusive".toList⟩
+    "ExclusionPolicy::Exclusive".toList = false ∧
+    qualifyCxxVariantName ⟨"QActionGroup".toList, "ExclusionPolicy".toList, true, "Exclusive".toList⟩
+      = "QActionGroup::ExclusionPolicy::Exclusive".toList ∧
+    qualifyCxxVariantName ⟨"Qt".toList, "Alignment".toList, false, "AlignLeft".toList⟩ = "Qt::AlignLeft".toList := by
+  decide +kernel
 
 /-! ### `std::max/std::min` (F13 — repaired) -/
 
@@ -572,11 +621,11 @@ example : spellArith .rem .double = .fmod ∧ spellArith .rem .int = .infix ∧ 
 /-- colliding prefixes: `foo`+`windowTitle` and `fooWindow`+`title` (and `title1`) get distinct names -/
 example :
     (build [
-      { name := "foo".toList, props := [[{ depth := 0, name := "windowTitle".toList, kind := .expr ⟨true, 0, [], []⟩ }]],
+      { name := "foo".toList, props := [[{ depth := 0, name := "windowTitle".toList, kind := .expr ⟨true, 0, [], [], []⟩ }]],
         callbacks := [] },
       { name := "fooWindow".toList,
-        props := [[{ depth := 0, name := "title".toList, kind := .expr ⟨true, 0, [], []⟩ }],
-                  [{ depth := 0, name := "title1".toList, kind := .expr ⟨true, 0, [], []⟩ }]],
+        props := [[{ depth := 0, name := "title".toList, kind := .expr ⟨true, 0, [], [], []⟩ }],
+                  [{ depth := 0, name := "title1".toList, kind := .expr ⟨true, 0, [], [], []⟩ }]],
         callbacks := [] }]).map (·.indexEnum.map String.ofList)
       = some ["FooWindowTitle", "FooWindowTitle1", "FooWindowTitle11"] := by
   decide +kernel
